@@ -186,8 +186,9 @@ fn run_ttc(ctx: &Ctx) {
         let nm = 1 + c.pick(max_members);
         let members: Vec<Vec<usize>> = (0..nm).map(|_| c.of(&subsets).clone()).collect();
         let flavors: Vec<u32> = (0..nm).map(|k| FLAVORS[k % 3]).collect();
-        let bytes = sfnt::build_ttc(version, &flavors, &pool, &members);
-        let what = || json!({"container": "ttc", "version": version, "members": members, "file_hex": mcx::hex(&bytes)});
+        let layout = *c.of(&[sfnt::TtcLayout::DirsFirst, sfnt::TtcLayout::Interleaved, sfnt::TtcLayout::TablesFirst]);
+        let bytes = sfnt::build_ttc_layout(version, &flavors, &pool, &members, layout);
+        let what = || json!({"container": "ttc", "version": version, "layout": format!("{:?}", layout), "members": members, "file_hex": mcx::hex(&bytes)});
         let h = H::new().bytes(&bytes).get();
         let r = guard(|| {
             for seam in 0..2 {
